@@ -28,7 +28,10 @@ def party(el, ident=None, ref=None, rnd=None):
     if ident is not None:
         p.add_attribute("id", ident)
     if ref is not None:
-        p.add_child(Node("references", content=ref))
+        r = Node("references", content=ref)
+        if rnd is not None and rnd.random() < 0.6:
+            r.tail = rnd.choice([" ", "\n    ", "tail of the references node"])      # as after from_xml(clean=False) / blank tails kept by clean mode
+        p.add_child(r)
     else:
         i = Node("individualName")
         i.add_child(Node("givenName", content="G" + str(ident)))
@@ -36,6 +39,9 @@ def party(el, ident=None, ref=None, rnd=None):
         p.add_child(i)
         if rnd is not None and rnd.random() < 0.5:
             p.add_child(Node("electronicMailAddress", content=f"{ident}@example.org"))
+        if rnd is not None and rnd.random() < 0.5:
+            for c in p.children:
+                c.tail = rnd.choice([None, "\n  ", "source-tail"])
     if el == "associatedParty":
         p.add_child(Node("role", content="role-" + str(ident or ref)))
     return p
